@@ -59,7 +59,7 @@ def run_case(case):
         resid[key] = max(resid.get(key, 0.0), e)
         # phase shifts applied after the vertical solve are not amplified by the shooting: flat tolerance there
         t = tol if what in ("source_translation", "footprint_is_point_reflection_of_unit_response") else solve.TOL_EXACT[prec]
-        if e > t:
+        if not e <= t:
             viol.append(dict(what=what, rel=e, tol=t, precision=prec, levels=levels, setup=desc, **extra))
 
     q0, skind = gen.make_source(rng, ny, nx)
@@ -130,7 +130,7 @@ def run_case(case):
             e = float(np.max(np.abs(got - exp))) / scale if exp.size else 0.0
             key = f"recentring_halo_{prec}"
             resid[key] = max(resid.get(key, 0.0), e)
-            if e > tolh:
+            if not e <= tolh:
                 viol.append(dict(what="recentring", field=nm, rel=e, tol=tolh, precision=prec, point=(i2, j2), halo=Sh["halo"],
                                  centre_value=float(B[ny2 // 2, nx2 // 2]), field_at_point=float(A[j2, i2]), setup=gen.describe(Sh)))
         hb = Sh["halo_class"]
@@ -154,7 +154,7 @@ def run_case(case):
             e = float(np.max(np.abs(got - exp))) / scale
             key = f"reflection_halo_{prec}"
             resid[key] = max(resid.get(key, 0.0), e)
-            if e > tolr:
+            if not e <= tolr:
                 viol.append(dict(what="footprint_is_point_reflection_of_unit_response", field=nm, rel=e, tol=tolr, precision=prec, point=(it, jt),
                                  halo=Sh["halo"], setup=gen.describe(Sh)))
         sigs.append(f"{case['idx']}|ch")
@@ -177,7 +177,7 @@ def run_case(case):
                 e = float(np.max(np.abs(got - exp))) / scale
                 key = f"tower_translation_halo_{prec}"
                 resid[key] = max(resid.get(key, 0.0), e)
-                if e > tolr:
+                if not e <= tolr:
                     viol.append(dict(what="tower_translation", field=nm, rel=e, tol=tolr, precision=prec, point=(it, jt), moved_to=(ib, jb),
                                      outside_flux_map=not (0 <= ib < nx2 and 0 <= jb < ny2), halo=Sh["halo"], setup=gen.describe(Sh)))
             counters["tower_moves_under_halo"] = counters.get("tower_moves_under_halo", 0) + 1
